@@ -978,7 +978,10 @@ func (b *Bitmap) Shift(n int) (*Bitmap, error) {
 		}
 		o, carry := shift(ci)
 		if lastCarry {
-			o.add(0)
+			// add may return a different container (o is nil when ci is
+			// empty, and an add can convert or reallocate), so keep its
+			// result or the carried bit is lost.
+			o, _ = o.add(0)
 		}
 		if o.N() > 0 {
 			output.Containers.Put(ki, o)
